@@ -19,6 +19,9 @@ from schemathesis.generation.meta import CaseMetadata, ComponentInfo, ComponentK
 from schemathesis.specs.openapi import checks as oas_checks
 
 import requests
+from requests.structures import CaseInsensitiveDict
+
+from harness.core import InfraError
 
 # (method, path template, path variables, other declared parameters [(location, name)])
 OPS = [
@@ -419,6 +422,82 @@ def partial_link_runs(chk):
                              "stateful phase may not have followed the link in this run")
 
 
+def other_checks_runs(chk):
+    """"a DELETE on the same resource succeeded" is a fact about what the API answered.  Other checks run between the
+    requests of a scenario and record auxiliary exchanges of their own in the same recorder (ignored_auth sends the
+    request again without / with invalid credentials).  Real checks, real transport, loopback API that enforces its
+    declared security and keeps serving deleted users: scenario DELETE /users/7 (204) -> GET /users/7 (200), with the
+    other check run on every response first, as the engine does.  The server's own log states what was answered; the
+    verdict of use_after_free must be the one the wire history warrants, with or without the other check."""
+    from flask import Flask, jsonify, request
+    from harness import engine_common as E
+    from schemathesis.specs.openapi.checks import ignored_auth, use_after_free
+
+    log = []
+    app = Flask("c18-auth")
+
+    def authed():
+        return request.headers.get("Authorization") == "Bearer good"
+
+    @app.route("/users/<uid>", methods=["DELETE", "GET"])
+    def user(uid):
+        ok = authed()
+        status = 401 if not ok else (204 if request.method == "DELETE" else 200)
+        log.append((request.method, uid, ok, status))
+        return ("", status) if status != 200 else (jsonify({"id": uid}), 200)
+
+    raw = {"openapi": "3.0.2", "info": {"title": "t", "version": "1"},
+           "components": {"securitySchemes": {"tok": {"type": "http", "scheme": "bearer"}}}, "security": [{"tok": []}],
+           "paths": {"/users/{id}": {
+               "delete": {"parameters": [{"name": "id", "in": "path", "required": True, "schema": {"type": "string"}}],
+                          "responses": {"204": {"description": "gone"}, "401": {"description": "no"}}},
+               "get": {"parameters": [{"name": "id", "in": "path", "required": True, "schema": {"type": "string"}}],
+                       "responses": {"200": {"description": "ok"}, "401": {"description": "no"}}}}}}
+    with E.Server(app) as srv:
+        for with_other in (False, True):
+            for get_id in ("7", "8"):
+                del log[:]
+                schema = E.load_schema(srv.url, raw=raw)
+                hdrs = {"Authorization": "Bearer good"}
+                rec = ScenarioRecorder(label="t")
+                ctx = CheckContext(override=None, auth=None, headers=CaseInsensitiveDict(hdrs), config={},
+                                   transport_kwargs={"headers": dict(hdrs)}, recorder=rec)
+                verdicts = []
+                prev = None
+                for method, uid in (("DELETE", "7"), ("GET", get_id)):
+                    # as generated: the declared security scheme is a header parameter of the operation; the configured
+                    # header is written over it when the request is sent
+                    case = schema["/users/{id}"][method].Case(path_parameters={"id": uid}, headers={"Authorization": "Bearer gen"})
+                    rec.record_case(parent_id=prev, transition=None, case=case)
+                    resp = case.call(base_url=srv.url, headers=dict(hdrs))
+                    rec.record_response(case_id=case.id, response=resp)
+                    for fn in ([ignored_auth] if with_other else []) + [use_after_free]:
+                        try:
+                            fn(ctx, resp, case)
+                            verdicts.append((method, fn.__name__, "pass"))
+                        except Failure as f:
+                            verdicts.append((method, fn.__name__, type(f).__name__))
+                    prev = case.id
+                # ground truth from the server's log: the authenticated DELETE of 7 was answered 204, the authenticated
+                # GET of <get_id> 200
+                deleted_ok = ("DELETE", "7", True, 204) in log
+                got_ok = ("GET", get_id, True, 200) in log
+                if not (deleted_ok and got_ok):
+                    raise InfraError(f"other_checks_runs: unexpected server log {log}")
+                expected = "UseAfterFree" if get_id == "7" else "pass"
+                got = [v for m, n, v in verdicts if m == "GET" and n == "use_after_free"]
+                chk.case("uaf:with-other-checks", key=[with_other, get_id], nontrivial=True,
+                         sample={"ignored_auth_runs_first": with_other, "verdicts": verdicts, "server_log": log[:8]})
+                chk.feature(f"uaf:other-checks={with_other}:same-id={get_id == '7'}")
+                if got != [expected]:
+                    chk.violation("C18:use_after_free:verdict-differs-from-the-wire-history-when-another-check-records-its-own-requests",
+                                  f"the API answered DELETE /users/7 with 204 and then GET /users/{get_id} with 200 "
+                                  f"(server log); use_after_free gives {got}, the history warrants {expected!r} "
+                                  f"(ignored_auth run on every response first: {with_other})",
+                                  {"mechanism": "other_checks_runs", "ignored_auth_first": with_other, "get_id": get_id,
+                                   "verdicts": verdicts, "server_log": [list(x) for x in log]})
+
+
 def run(chk):
     rng = chk.rng
     world = World(OPS)
@@ -450,6 +529,7 @@ def run(chk):
     judge(chk, w2, trees, "decorated", variant)
     prefix_corr(chk, rng, chk.budget(3000, 40000))
     partial_link_runs(chk)
+    other_checks_runs(chk)
     chk.exhaustive = False
     chk.notes.append(f"exhaustive3: all {len(ex)} three-node trees over ops {ops_subset}")
 
